@@ -2,9 +2,15 @@
 
 package lua
 
-// Verification hooks for the cancellation check (C11). Readers only: they project the call
-// frames of a thread onto what the abstract cancellation machine looks at. Nothing here changes
-// behaviour of the library.
+// Verification hooks for the cancellation check (C11): readers that project the call frames of a
+// thread onto what the abstract cancellation machine looks at, and one setter that swaps a thread's
+// context object for an equivalent (delegating, counting) wrapper. Nothing here changes behaviour
+// of the library.
+
+import (
+	"context"
+	"reflect"
+)
 
 // VerifCtxFrame is one call frame of a thread: the function it runs and, for the protected-call
 // builtins, the first two arguments (xpcall's handler is the second).
@@ -32,3 +38,13 @@ func VerifCtxFrames(L *LState) []VerifCtxFrame {
 
 // VerifCtxWrapped tells whether the thread was created by coroutine.wrap.
 func VerifCtxWrapped(L *LState) bool { return L.wrapped }
+
+// VerifCtxPolls tells whether L runs the polling main loop (mainLoopWithContext).
+func VerifCtxPolls(L *LState) bool {
+	return reflect.ValueOf(L.mainLoop).Pointer() == reflect.ValueOf(mainLoopWithContext).Pointer()
+}
+
+// VerifCtxReplace replaces the context object of L and nothing else. Unlike SetContext it does not
+// select the polling loop, so the loop chosen by NewThread stays observable. The harness passes a
+// wrapper that delegates every method to the context L already had.
+func VerifCtxReplace(L *LState, ctx context.Context) { L.ctx = ctx }
